@@ -84,7 +84,7 @@ func mkHashDests(addrs []string) ([]*destination.Destination, error) {
 }
 
 type c15Op struct {
-	Kind string `json:"k"` // send add del sleep
+	Kind string `json:"k"` // send add del move sleep
 	N    int    `json:"n,omitempty"`
 	Idx  int    `json:"idx,omitempty"`
 }
@@ -125,7 +125,9 @@ func scenC15(x *Exec) {
 	}
 	nops := 3 + g.Intn(8)
 	for i := 0; i < nops; i++ {
-		switch g.Pick(5) {
+		switch g.Pick(6) {
+		case 5:
+			p.Ops = append(p.Ops, c15Op{Kind: "move", Idx: g.Intn(8)})
 		case 0:
 			p.Ops = append(p.Ops, c15Op{Kind: "add"})
 		case 1:
@@ -233,6 +235,7 @@ func scenC15(x *Exec) {
 			name          string
 			id            int
 			before, after []string // membership when the hand-off started / ended
+			pend1, pend2  []string // membership a change in progress at those two moments was about to establish
 		}
 		var sents []*sent
 		var memberMu = &members
@@ -240,15 +243,16 @@ func scenC15(x *Exec) {
 		removed := map[string]bool{}
 		spare := append([]string(nil), p.Spare...)
 		adminBusy := false
+		var pending []string // non-nil while a membership change is being applied: what the membership will be afterwards
 		nextKey := 0
 		sendN := func(n int) {
 			for i := 0; i < n; i++ {
 				k := rc.Keys[(nextKey*7+i*13)%len(rc.Keys)]
-				st := &sent{name: k, id: len(sents), before: append([]string(nil), members...)}
+				st := &sent{name: k, id: len(sents), before: append([]string(nil), members...), pend1: pending}
 				sents = append(sents, st)
 				rt.Dispatch([]byte(fmt.Sprintf("%s %d 946684800", k, st.id)))
+				st.after, st.pend2 = append([]string(nil), members...), pending
 				simrt.Yield("dispatched")
-				st.after = append([]string(nil), members...)
 			}
 			nextKey += n
 		}
@@ -294,11 +298,12 @@ func scenC15(x *Exec) {
 						s.Infra("%v", err)
 						return
 					}
+					pending = append(append([]string(nil), members...), a)
 					rt.(interface {
 						Add(*destination.Destination)
 					}).Add(ds[0])
+					members, pending = pending, nil
 					simrt.Yield("added")
-					members = append(members, a)
 					done = true
 					adminBusy = false
 					cond.Broadcast()
@@ -309,6 +314,43 @@ func scenC15(x *Exec) {
 					return
 				}
 				waitOnline()
+			case "move":
+				// modDest addr=...: the destination at idx gets a new address (host and instance); from then on the ring is the
+				// one of the new set of (host, instance) pairs
+				if len(spare) == 0 {
+					continue
+				}
+				a := spare[0]
+				spare = spare[1:]
+				hostPort := func(x string) string { return strings.Join(strings.Split(x, ":")[:2], ":") }
+				clash := false
+				for addr := range eps {
+					if hostPort(addr) == hostPort(a) {
+						clash = true // same host:port with another instance: whether that counts as a new address is not C15's subject
+					}
+				}
+				if clash {
+					continue
+				}
+				startEp(a)
+				idx := op.Idx % len(members)
+				done := false
+				s.Spawn("admin-move", "admin", "relay1", func() {
+					nm := append([]string(nil), members...)
+					nm[idx] = a
+					pending = nm
+					if err := rt.UpdateDestination(idx, map[string]string{"addr": a}); err != nil {
+						s.Fail(prop+":move-error", "UpdateDestination(%d, addr=%s) returned %v", idx, a, err)
+					}
+					members, pending = pending, nil
+					simrt.Yield("moved")
+					done = true
+					cond.Broadcast()
+				})
+				sendN(5 + g.Intn(20))
+				cond.Wait(func() bool { return done }, time.Time{})
+				waitOnline()
+				s.Probe("c15.destination_moved")
 			case "del":
 				if len(members) <= 2 {
 					continue
@@ -318,12 +360,13 @@ func scenC15(x *Exec) {
 				done := false
 				before := append([]string(nil), members...)
 				s.Spawn("admin-del", "admin", "relay1", func() {
+					pending = append(append([]string(nil), members[:idx]...), members[idx+1:]...)
+					removed[a] = true
 					if err := rt.DelDestination(idx); err != nil {
 						s.Fail(prop+":del-error", "DelDestination(%d) returned %v", idx, err)
 					}
+					members, pending = pending, nil
 					simrt.Yield("deleted")
-					members = append(append([]string(nil), members[:idx]...), members[idx+1:]...)
-					removed[a] = true
 					done = true
 					cond.Broadcast()
 				})
@@ -354,28 +397,59 @@ func scenC15(x *Exec) {
 		for _, st := range sents {
 			ob := st.before[NewRefRing(st.before).Owner([]byte(st.name))]
 			oa := st.after[NewRefRing(st.after).Owner([]byte(st.name))]
+			// a change that was being applied while the line was handed over: the line may have seen the table before or after it
+			owners := map[string]bool{ob: true, oa: true}
+			cands := [][]string{st.before, st.after}
+			for _, pm := range [][]string{st.pend1, st.pend2} {
+				if pm != nil {
+					cands = append(cands, pm)
+				}
+			}
+			for _, m := range cands {
+				oi := NewRefRing(m).Owner([]byte(st.name))
+				owners[m[oi]] = true
+				// while a destination is being moved, the slot that owns the key may already (or still) talk to its other address:
+				// the metric went to the destination the ring chose, which is all C15 asks
+				for _, m2 := range cands {
+					if len(m2) == len(m) {
+						owners[m2[oi]] = true
+					}
+				}
+			}
 			got := where[st.id]
 			if len(got) > 1 {
 				s.Fail(prop+":duplicate", "line %d (%s) reached %d destinations: %v", st.id, st.name, len(got), got)
 				return
 			}
 			if len(got) == 0 {
-				if removed[ob] || removed[oa] {
+				gone := false
+				for o := range owners {
+					if removed[o] {
+						gone = true
+					}
+				}
+				if gone {
 					continue // handed to a destination that was shut down before it wrote the line
 				}
 				dropped := func(a string) bool {
 					k := fastDestCfg(a).key("hash")
 					return counter("dest="+k+".unit=Metric.action=drop.reason=conn_down_no_spool")+counter("dest="+k+".unit=Metric.action=drop.reason=slow_conn") > 0
 				}
-				if dropped(ob) || dropped(oa) {
+				anyDropped := false
+				for o := range owners {
+					if dropped(o) {
+						anyDropped = true
+					}
+				}
+				if anyDropped {
 					s.Probe("c15.line_dropped_by_connecting_destination")
 					continue // counted by a destination whose connection was not up yet
 				}
 				s.Fail(prop+":not-delivered", "line %d (%s) reached no destination; owner should be %s (members %v)", st.id, st.name, ob, st.before)
 				return
 			}
-			if got[0] != ob && got[0] != oa {
-				s.Fail(prop+":wrong-owner", "line %d (%s) went to %s; the ring of %v assigns it to %s (after the change: %s)", st.id, st.name, got[0], st.before, ob, oa)
+			if !owners[got[0]] {
+				s.Fail(prop+":wrong-owner", "line %d (%s) went to %s; the ring of %v assigns it to %s (memberships a concurrent change allows: after %v, in progress %v %v; owners %v)", st.id, st.name, got[0], st.before, ob, st.after, st.pend1, st.pend2, owners)
 				return
 			}
 			if ob == oa {
